@@ -45,6 +45,21 @@ pub fn run(out: &mut Out, thorough: bool) {
             let ok = |x: &Integer| *x > 1 && x < n && Integer::from(x.gcd_ref(n)) == 1 && x.jacobi(n) == 1;
             (own.N.significant_bits() == 2 * sec + 1 || own.N.significant_bits() == 2 * sec + 2) && ok(&own.h) && own.g_bases.iter().all(ok) && !prime(n)
         });
+        // a product of two safe primes of SECPARAM + 1 bits has no small prime factor (the factors are not available for an own modulus)
+        for rep in 0..(if thorough { 6 } else { 3 }) {
+            let m = if rep == 0 { own.N.clone() } else { CL03CommitmentPublicKey::generate::<CS>(None, Some(1)).N };
+            out.check(&format!("{}/commitment-key-own-modulus-no-small-factor/{}", tag, rep), "CL03CommitmentPublicKey::generate(None)", vec!["trial division by the primes below 2^20".into()], true, &[], || {
+                let mut pr = Integer::from(2);
+                let lim = Integer::from(1u32 << 20);
+                while pr < lim {
+                    if m.is_divisible(&pr) {
+                        return false;
+                    }
+                    pr = pr.next_prime();
+                }
+                true
+            });
+        }
         // encodings
         out.check(&format!("{}/pk-bytes-roundtrip", tag), "CL03PublicKey::to_bytes;from_bytes", vec![], true, &[], || CL03PublicKey::from_bytes::<CL03_CL1024_SHA256>(&pk.to_bytes::<CL03_CL1024_SHA256>()) == *pk);
         out.check(&format!("{}/sk-bytes-roundtrip", tag), "CL03SecretKey::to_bytes;from_bytes", vec![], true, &[], || CL03SecretKey::from_bytes::<CL03_CL1024_SHA256>(&sk.to_bytes::<CL03_CL1024_SHA256>()) == *sk);
